@@ -43,6 +43,7 @@ func freePort() string {
 type c19Env struct {
 	base, home, cwd, rootA, rootB string
 	portA, portB                  string
+	srcIP                         string // source address of observation clients ("" = default)
 }
 
 func newC19Env(base string) *c19Env {
@@ -139,7 +140,7 @@ func (e *c19Env) observe(b *BinSrv, setting string, expect string) (got string, 
 	const tmo = 20 * time.Second
 	switch setting {
 	case "root":
-		c, err := dialFrom(b.Addr, "", tmo)
+		c, err := dialFrom(b.Addr, e.srcIP, tmo)
 		if err != nil {
 			return "unreachable", err.Error()
 		}
@@ -151,7 +152,7 @@ func (e *c19Env) observe(b *BinSrv, setting string, expect string) (got string, 
 		}
 		return "unknown-root", ""
 	case "listen-addr":
-		c, err := dialFrom(b.Addr, "", tmo)
+		c, err := dialFrom(b.Addr, e.srcIP, tmo)
 		if err != nil {
 			return "unreachable", err.Error()
 		}
@@ -161,7 +162,7 @@ func (e *c19Env) observe(b *BinSrv, setting string, expect string) (got string, 
 		}
 		return b.Addr, ""
 	case "allow-write":
-		c, err := dialFrom(b.Addr, "", tmo)
+		c, err := dialFrom(b.Addr, e.srcIP, tmo)
 		if err != nil {
 			return "unreachable", err.Error()
 		}
@@ -204,7 +205,7 @@ func (e *c19Env) observe(b *BinSrv, setting string, expect string) (got string, 
 			}()
 			n := 0
 			for i := 0; i < 3; i++ {
-				c, err := dialFrom(b.Addr, "", tmo)
+				c, err := dialFrom(b.Addr, e.srcIP, tmo)
 				if err != nil {
 					break
 				}
@@ -226,7 +227,7 @@ func (e *c19Env) observe(b *BinSrv, setting string, expect string) (got string, 
 		}
 		return sprintf("%d", n), ""
 	case "read-timeout":
-		c, err := dialFrom(b.Addr, "", tmo)
+		c, err := dialFrom(b.Addr, e.srcIP, tmo)
 		if err != nil {
 			return "unreachable", err.Error()
 		}
@@ -245,7 +246,7 @@ func (e *c19Env) observe(b *BinSrv, setting string, expect string) (got string, 
 		}
 		return "10m", ""
 	case "debug":
-		c, err := dialFrom(b.Addr, "", tmo)
+		c, err := dialFrom(b.Addr, e.srcIP, tmo)
 		if err != nil {
 			return "unreachable", err.Error()
 		}
@@ -316,6 +317,19 @@ func TestC19(t *testing.T) {
 		// absent: the documented default
 		cases = append(cases, tc{name: sprintf("%s absent", s.flag), setting: s.flag, expect: "default"})
 	}
+	// every pair of settings given together (flags): each must still have its own effect (wiring interactions,
+	// e.g. whitelist + client limit)
+	for i, s1 := range c19Settings {
+		for _, s2 := range c19Settings[i+1:] {
+			if s1.flag == "listen-addr" && s2.flag == "debug-server-listen-addr" {
+				continue // both take the A port
+			}
+			for _, obs := range []string{s1.flag, s2.flag} {
+				cases = append(cases, tc{name: sprintf("%s together with %s (observing %s)", s1.flag, s2.flag, obs), setting: obs, expect: "A",
+					assigns: []c19Assign{{"flag", s1.flag, "A"}, {"flag", s2.flag, "A"}}})
+			}
+		}
+	}
 	for i, c := range cases {
 		if !r.Mine(i) {
 			continue
@@ -325,14 +339,24 @@ func TestC19(t *testing.T) {
 		}
 		os.RemoveAll(base)
 		e := newC19Env(base)
-		a, bv := e.values(c.setting)
+		a, _ := e.values(c.setting)
 		var assigns []c19Assign
 		for _, x := range c.assigns {
+			xa, xb := e.values(x.Setting)
+			if x.Setting == "debug-server-listen-addr" && c.setting != x.Setting {
+				xa = e.portB // keep port A free for a listen-addr given at the same time
+			}
+			if x.Setting == "read-timeout" && c.setting != x.Setting {
+				xa = "5m" // a companion read-timeout must not cut the observation clients
+			}
+			if x.Setting == "client-whitelist" && c.setting != x.Setting && x.Value == "A" {
+				e.srcIP = xa // observe through a whitelisted source address
+			}
 			switch x.Value {
 			case "A":
-				x.Value = a
+				x.Value = xa
 			case "B":
-				x.Value = bv
+				x.Value = xb
 			}
 			assigns = append(assigns, x)
 		}
